@@ -167,7 +167,26 @@ macro_rules! from_args_single {
         }
     )*};
 }
-from_args_single!(Q, f64, f32, i64, Slope, Fz, u8, i8, Sn);
+from_args_single!(Q, f64, f32, i64, Slope, Fz, u8, i8, Sn, Bl);
+
+/// a `bool` sample (`0` / `1` on the protocol): a type with a niche — `Option<Bl>::None` is NOT the all-zero bit pattern,
+/// so memory that is merely zeroed reads as `Some(false)`, a phantom sample
+#[derive(Clone, Copy, Debug, Default, PartialEq, PartialOrd)]
+pub struct Bl(pub bool);
+impl FromVal for Bl {
+    fn from_val(v: Val) -> Bl {
+        match i64::from_val(v) {
+            0 => Bl(false),
+            1 => Bl(true),
+            _ => panic!("harness: a bool sample is 0 or 1"),
+        }
+    }
+}
+impl Render for Bl {
+    fn r(&self) -> String {
+        (if self.0 { "1" } else { "0" }).to_string()
+    }
+}
 
 /// a composite-like sample: ordered by `v`; when `odd`, unequal to everything including itself and incomparable with
 /// values of the same `v` — the behaviour of `(v, f64::NAN)` under the derived lexicographic `PartialOrd`
